@@ -415,7 +415,12 @@ pub fn dag_project(spec: &DagSpec) -> Project {
         s.push('\n');
         let n = names[i];
         s.push_str(&format!("struct S{} {{ v: int32 }}\nenum E{} {{ K{}(int32), N{} }}\nfn id{}[T](x: T) -> T {{ x }}\n", n, n, n, n, n));
-        let mut sum = format!("id{}(S{} {{ v: {} }}).v", n, n, i + 1);
+        // an inherent impl block with several methods (their order is part of the exported interface)
+        s.push_str(&format!(
+            "impl S{n} {{\n    fn zeta(self: S{n}) -> int32 {{ self.v }}\n    fn alpha(self: S{n}, k: int32) -> int32 {{ self.v + k }}\n    fn mid(self: S{n}) -> int32 {{ 0 }}\n    fn beta(self: S{n}) -> int32 {{ self.v - self.v }}\n}}\n",
+            n = n
+        ));
+        let mut sum = format!("id{n}(S{n} {{ v: {k} }}).v + S{n} {{ v: 0 }}.alpha(0) + S{n} {{ v: 5 }}.beta() + S{n} {{ v: 0 }}.zeta() + S{n} {{ v: 1 }}.mid()", n = n, k = i + 1);
         for (a, b) in &edges {
             if *a == i {
                 sum.push_str(&format!(" + {}::f{}()", names[*b], names[*b]));
